@@ -940,13 +940,9 @@ const pageMask = pageSize - 1"""),
       new="""		w.entities = make([]entityIndex, required, capacity)
 		copy(w.entities, old[:w.entityPool.Len()+1])
 	} else if required > len {"""),
- dict(prop="C02", name="growth copy with the source sliced to its own length (benign)", kind="B", file=WI,
-      old="""		w.entities = make([]entityIndex, required, capacity)
-		copy(w.entities, old)
-	} else if required > len {""",
-      new="""		w.entities = make([]entityIndex, required, capacity)
-		copy(w.entities, old[:len(old)])
-	} else if required > len {"""),
+ dict(prop="C02", name="growth copy with the source sliced to its own length (benign)", kind="B", file=PO,
+      old="""		copy(p.entities, old)""",
+      new="""		copy(p.entities, old[:len(old)])"""),
  dict(prop="C03", name="getArchetypes loop bound minus the free slots", kind="M", file=WI, expect="C03.R22",
       old="""		ln2 := int32(nodeArches.Len())
 		var j int32
